@@ -200,6 +200,8 @@ def supported(s: Shape) -> Optional[str]:
             return "not generated"
     if sum(1 for k in kinds if k.generic == "trait") > 1:
         return "one trait generic at most"
+    if s.extra.get("type_tag") and s.asyncness != "sync":
+        return "type tags only generated for sync methods"
     if s.named_self_lifetime and (s.receiver != "ref" or s.asyncness != "sync"):
         return "named self lifetime only for &'a self sync methods"
     if s.named_self_lifetime and s.ret == "param_ref":
@@ -382,6 +384,9 @@ def render_trait(s: Shape, idx: int, trait_name="Tr", method="m", unmock_attr=""
         generics.append("'a")
     if any(k.name == "mut_u32_lt" for k in kinds):
         generics.append("'b")
+    if s.extra.get("type_tag"):
+        # a "type tag": a method-level generic that occurs in no parameter and not in the return type
+        generics.append("K: 'static")
     for i, k in enumerate(kinds):
         if k.name == "gen_method_ns":
             generics.append(f"T{i}: std::fmt::Debug + Clone + 'static")
@@ -416,6 +421,15 @@ def render_trait(s: Shape, idx: int, trait_name="Tr", method="m", unmock_attr=""
     return f"{attr}\n{pre}pub trait {trait_name}{trait_gen} {{\n{decl}\n{extra_methods}}}\n"
 
 
+def turbofish(s: Shape):
+    """Explicit generic arguments at the call site: only needed for a type tag (the others are inferred)."""
+    if not s.extra.get("type_tag"):
+        return ""
+    kinds = [KINDS[p] for p in s.params]
+    named = sum(1 for k in kinds if k.generic == "method")
+    return "::<" + ", ".join(["u8"] + ["_"] * named) + ">"
+
+
 def mockfn_expr(s: Shape):
     kinds = [KINDS[p] for p in s.params]
     base = "M::m" if s.api == "module" else "MFn"
@@ -424,6 +438,8 @@ def mockfn_expr(s: Shape):
         if k.generic == "trait":
             gen_args.insert(0, "u16")
     # order of with_types params: trait generics first, then method generics / impl traits in declaration order
+    if s.extra.get("type_tag"):
+        gen_args.append("u8")
     for k in kinds:
         if k.generic in ("method", "impl"):
             gen_args.append("u16")
@@ -512,11 +528,12 @@ def render_forward(s: Shape, idx: int):
     pre, recv = call_prefix(s)
     cp, ca = caller_probes(s)
     rp_expr, rp_expect = result_probe(s)
-    call = f"{recv}.m({args})"
+    fish = turbofish(s)
+    call = f"{recv}.m{fish}({args})"
     trait_use = "Tr::<u16>::m" if any(k.generic == "trait" for k in kinds) else None
     if trait_use:
-        call = f"Tr::<u16>::m({'&' if s.receiver == 'ref' else ('&mut ' if s.receiver == 'mut' else '')}{recv}, {args})" \
-            if s.receiver in ("ref", "mut") else f"Tr::<u16>::m({recv}, {args})"
+        call = f"Tr::<u16>::m{fish}({'&' if s.receiver == 'ref' else ('&mut ' if s.receiver == 'mut' else '')}{recv}, {args})" \
+            if s.receiver in ("ref", "mut") else f"Tr::<u16>::m{fish}({recv}, {args})"
     ans = f"&ans_{idx}" if s.ret == "param_ref" else answer_closure(s, idx)
     mock = (f"let u = Unimock::new({mockfn_expr(s)}.next_call({matcher_closure(s, idx)})"
             f".answers({ans}));")
@@ -654,10 +671,11 @@ def render_message(s: Shape, idx: int):
     decls = "\n        ".join(k.decl.replace("{i}", str(i)).replace("{v}", str(value_of(i))) for i, k in enumerate(kinds))
     args = ", ".join(k.arg.replace("{i}", str(i)) for i, k in enumerate(kinds))
     pre, recv = call_prefix(s)
-    call = f"{recv}.m({args})"
+    fish = turbofish(s)
+    call = f"{recv}.m{fish}({args})"
     if any(k.generic == "trait" for k in kinds):
-        call = f"Tr::<u16>::m({'&' if s.receiver == 'ref' else ('&mut ' if s.receiver == 'mut' else '')}{recv}, {args})" \
-            if s.receiver in ("ref", "mut") else f"Tr::<u16>::m({recv}, {args})"
+        call = f"Tr::<u16>::m{fish}({'&' if s.receiver == 'ref' else ('&mut ' if s.receiver == 'mut' else '')}{recv}, {args})" \
+            if s.receiver in ("ref", "mut") else f"Tr::<u16>::m{fish}({recv}, {args})"
     # rustc's own Debug at the call site (for the kinds that implement it)
     dbg = []
     for i, k in enumerate(kinds):
@@ -873,6 +891,10 @@ def core_shapes_forward():
                            ["u32", "gen_method_ns"]):
                 for ret in ("u32", "string", "self_ref", "unit", "opt_self_ref"):
                     shapes.append(Shape(r, list(params), ret, asyncness=a))
+    # type tags (a method generic that no parameter mentions), alone and next to impl Trait / generic parameters
+    for r in ["ref", "mut", "owned"]:
+        for params in ([], ["u32"], ["gen_impl"], ["ref_str", "gen_impl"], ["gen_method", "gen_impl"], ["gen_method"]):
+            shapes.append(Shape(r, list(params), "u32", extra={"type_tag": True}))
     # named self lifetime
     for params in (["u32"], ["ref_str", "mut_u32"], []):
         for ret in ("self_ref", "u32", "self_str"):
@@ -897,6 +919,8 @@ def random_shape(rng: random.Random):
         s = Shape(rng.choice(RECEIVERS), params, rng.choice(RETURNS),
                   asyncness=rng.choice(["sync", "sync", "sync", "async_fn", "async_trait", "rpit"]),
                   api=rng.choice(APIS), named_self_lifetime=rng.random() < 0.1)
+        if s.asyncness == "sync" and rng.random() < 0.12:
+            s.extra = {"type_tag": True}
         if supported(s) is None:
             return s
     raise RuntimeError("no supported shape found")
